@@ -254,7 +254,7 @@ static void gen_c17(plan_t *p, rng_t *r)
 /* =====================================================================================================
  * C14
  * ===================================================================================================== */
-typedef struct { char proto[64], user[64], passwd[64], host[64], port[64], path[256], query[256]; int has[7]; int overflow; } urlc_t;
+typedef struct { char proto[1300], user[1300], passwd[1300], host[1300], port[1300], path[1300], query[1300]; int has[7]; int overflow; } urlc_t;      /* (components of a kilobyte too: "any byte string at all") */
 enum { U_PROTO, U_USER, U_PASSWD, U_HOST, U_PORT, U_PATH, U_QUERY };
 
 /* reference splitter (DESIGN B.8), written from the accepted shape, not from url.c */
@@ -266,7 +266,7 @@ static void ref_split(const char *s, urlc_t *u)
     if (colon) {
         const char *x = s;
         while (x < colon && isalnum((unsigned char)*x)) x++;
-        if (x == colon) { n = (size_t)(colon - s); if (n < 64) { memcpy(u->proto, s, n); u->has[U_PROTO] = 1; } else u->overflow = 1; p = colon + 1; }
+        if (x == colon) { n = (size_t)(colon - s); if (n < 1299) { memcpy(u->proto, s, n); u->has[U_PROTO] = 1; } else u->overflow = 1; p = colon + 1; }
     }
     if (p[0] == '/' && p[1] == '/') p += 2;
     rest = p;
@@ -274,7 +274,7 @@ static void ref_split(const char *s, urlc_t *u)
     if (pathp) {
         q = strchr(pathp, '?');
         n = q ? (size_t)(q - pathp) : strlen(pathp);
-        if (n < 256) { memcpy(u->path, pathp, n); u->has[U_PATH] = 1; } else u->overflow = 1;
+        if (n < 1299) { memcpy(u->path, pathp, n); u->has[U_PATH] = 1; } else u->overflow = 1;
         if (q) { if (strlen(q + 1) >= sizeof(u->query)) u->overflow = 1; snprintf(u->query, sizeof(u->query), "%s", q + 1); u->has[U_QUERY] = 1; }
         authend = pathp;
     } else if ((q = strchr(rest, '?'))) {
@@ -284,21 +284,21 @@ static void ref_split(const char *s, urlc_t *u)
     at = memchr(rest, '@', (size_t)(authend - rest));
     if (at) {
         c = memchr(rest, ':', (size_t)(at - rest));
-        if (c) { n = (size_t)(c - rest); if (n < 64) { memcpy(u->user, rest, n); u->has[U_USER] = 1; } else u->overflow = 1; n = (size_t)(at - c - 1); if (n < 64) { memcpy(u->passwd, c + 1, n); u->has[U_PASSWD] = 1; } else u->overflow = 1; }
-        else { n = (size_t)(at - rest); if (n < 64) { memcpy(u->user, rest, n); u->has[U_USER] = 1; } else u->overflow = 1; }
+        if (c) { n = (size_t)(c - rest); if (n < 1299) { memcpy(u->user, rest, n); u->has[U_USER] = 1; } else u->overflow = 1; n = (size_t)(at - c - 1); if (n < 1299) { memcpy(u->passwd, c + 1, n); u->has[U_PASSWD] = 1; } else u->overflow = 1; }
+        else { n = (size_t)(at - rest); if (n < 1299) { memcpy(u->user, rest, n); u->has[U_USER] = 1; } else u->overflow = 1; }
         rest = at + 1;
     }
     c = memchr(rest, ':', (size_t)(authend - rest));
     if (c) {
-        n = (size_t)(c - rest); if (n < 64) { memcpy(u->host, rest, n); u->has[U_HOST] = 1; } else u->overflow = 1;
-        n = (size_t)(authend - c - 1); if (n < 64) { memcpy(u->port, c + 1, n); u->has[U_PORT] = 1; } else u->overflow = 1;
-    } else if (rest != authend) { n = (size_t)(authend - rest); if (n < 64) { memcpy(u->host, rest, n); u->has[U_HOST] = 1; } else u->overflow = 1; }
+        n = (size_t)(c - rest); if (n < 1299) { memcpy(u->host, rest, n); u->has[U_HOST] = 1; } else u->overflow = 1;
+        n = (size_t)(authend - c - 1); if (n < 1299) { memcpy(u->port, c + 1, n); u->has[U_PORT] = 1; } else u->overflow = 1;
+    } else if (rest != authend) { n = (size_t)(authend - rest); if (n < 1299) { memcpy(u->host, rest, n); u->has[U_HOST] = 1; } else u->overflow = 1; }
 }
 static void get_components(spif_url_t url, urlc_t *u, const char *when)
 {
     spif_str_t c[7];
     char *dst[7] = { u->proto, u->user, u->passwd, u->host, u->port, u->path, u->query };
-    size_t cap[7] = { 64, 64, 64, 64, 64, 256, 256 };
+    size_t cap[7] = { 1300, 1300, 1300, 1300, 1300, 1300, 1300 };
     memset(u, 0, sizeof(*u));
     c[0] = spif_url_get_proto(url); c[1] = spif_url_get_user(url); c[2] = spif_url_get_passwd(url); c[3] = spif_url_get_host(url);
     c[4] = spif_url_get_port(url); c[5] = spif_url_get_path(url); c[6] = spif_url_get_query(url);
@@ -365,25 +365,35 @@ static int url_wellformed(const char *s)
     return 1;
 }
 
-/* port rule: filled from the service database only when a protocol but no port was given and the lookups succeed */
-static int service_port(const char *w, long ns, char *portbuf, size_t n)
+/* port rule: "filled from the service database only when a protocol but no port was given".  The statement does not say in which
+   order the databases are asked, what happens when the service's own protocol is unknown to the protocol database, or whether the
+   word is matched in exact case -- so the rule is a SET of acceptable answers: port_ok() says whether what the library reports
+   (a port text, or NULL for none) is one of them. */
+static int port_ok(const char *w, long ns, const char *got)
 {
     int is_proto = (!strcmp(w, "tcp") && (ns & 1)) || (!strcmp(w, "udp") && (ns & 2)) || (!strcmp(w, "ip") && (ns & 32));
-    int port = 0; const char *sp = NULL;
-    if (is_proto) { probe_hit("proto_is_protocol_name"); return 0; }
-    if (!strcmp(w, "http") && (ns & 4)) { port = 80; sp = "tcp"; }
-    else if (!strcmp(w, "ftp") && (ns & 16)) { port = 21; sp = "tcp"; }
-    else if (!strcmp(w, "dns") && (ns & 8)) { port = 53; sp = "udp"; }
-    else if (!strcmp(w, "odd") && (ns & 64)) { sp = "sctp"; probe_hit("service_proto_missing"); }
-    else if (!strcmp(w, "amanda") && (ns & 128)) { port = 10080; sp = "udp"; probe_hit("service_with_five_digit_port"); }
-    else if (!strcmp(w, "top") && (ns & 128)) { port = 65535; sp = "tcp"; probe_hit("service_with_five_digit_port"); }
-    else if (!strcmp(w, "dual") && (ns & 128)) { port = 1000; sp = "tcp"; probe_hit("service_listed_under_two_protocols"); }      /* listed as udp/2000 first and tcp/1000 second: tcp is asked for first */
-    if (sp && ((!strcmp(sp, "tcp") && (ns & 1)) || (!strcmp(sp, "udp") && (ns & 2)))) {
-        snprintf(portbuf, n, "%d", port);
-        probe_hit(!strcmp(sp, "tcp") ? "service_found_tcp" : "service_found_udp_only");
-        return 1;
+    const char *ports[3] = { NULL, NULL, NULL }; int np = 0, absent_ok = 0, any_ok = 0;
+    char lw[80]; size_t k;
+    int tcp = (ns & 1) != 0, udp = (ns & 2) != 0;
+    for (k = 0; w[k] && k < sizeof(lw) - 1; k++) lw[k] = (char)tolower((unsigned char)w[k]);
+    lw[k] = 0;
+    if (strcmp(lw, w)) {
+        /* a spelling with capitals of a word the databases know in lower case: whether that is the same word is theirs to say */
+        static const char *known[] = { "tcp", "udp", "ip", "http", "ftp", "dns", "odd", "amanda", "top", "dual" };
+        for (int q = 0; q < 10; q++) if (!strcmp(lw, known[q])) any_ok = 1;
     }
-    if (sp && strcmp(sp, "sctp")) probe_hit("service_found_but_protocol_missing");
+    if (is_proto) { probe_hit("proto_is_protocol_name"); absent_ok = 1; }
+    else if (!strcmp(w, "http") && (ns & 4)) { ports[np++] = "80"; if (!tcp) absent_ok = 1; probe_hit(tcp ? "service_found_tcp" : "service_found_but_protocol_missing"); }
+    else if (!strcmp(w, "ftp") && (ns & 16)) { ports[np++] = "21"; if (!tcp) absent_ok = 1; probe_hit(tcp ? "service_found_tcp" : "service_found_but_protocol_missing"); }
+    else if (!strcmp(w, "dns") && (ns & 8)) { ports[np++] = "53"; if (!udp) absent_ok = 1; probe_hit(udp ? "service_found_udp_only" : "service_found_but_protocol_missing"); }
+    else if (!strcmp(w, "odd") && (ns & 64)) { ports[np++] = "99"; absent_ok = 1; probe_hit("service_proto_missing"); }       /* its protocol (sctp) is in no protocol database */
+    else if (!strcmp(w, "amanda") && (ns & 128)) { ports[np++] = "10080"; if (!udp) absent_ok = 1; probe_hit("service_with_five_digit_port"); }
+    else if (!strcmp(w, "top") && (ns & 128)) { ports[np++] = "65535"; if (!tcp) absent_ok = 1; probe_hit("service_with_five_digit_port"); }
+    else if (!strcmp(w, "dual") && (ns & 128)) { ports[np++] = "1000"; ports[np++] = "2000"; if (!tcp || !udp) absent_ok = 1; probe_hit("service_listed_under_two_protocols"); }   /* udp/2000 and tcp/1000: both are "from the service database" */
+    else absent_ok = 1;                 /* a word no database knows */
+    if (any_ok) return 1;
+    if (!got) return absent_ok;
+    for (int q = 0; q < np; q++) if (!strcmp(got, ports[q])) return 1;
     return 0;
 }
 static void canonical_text(const urlc_t *c, char *exp, size_t cap)
@@ -403,8 +413,8 @@ static void exec_asm(const op_t *o, long ns)
 {
     urlc_t want, got, got2, chk;
     char *dst[7] = { want.proto, want.user, want.passwd, want.host, want.port, want.path, want.query };
-    size_t cap[7] = { 64, 64, 64, 64, 64, 256, 256 };
-    char exp[800], why[200], portbuf[16], *canon;
+    size_t cap[7] = { 1300, 1300, 1300, 1300, 1300, 1300, 1300 };
+    char exp[9000], why[200], portbuf[16], *canon;
     const unsigned char *q = o->s, *end = o->s + o->slen;
     spif_url_t u, u2;
     memset(&want, 0, sizeof(want));
@@ -442,7 +452,11 @@ static void exec_asm(const op_t *o, long ns)
     u2 = spif_url_new_from_ptr((spif_charptr_t)canon);
     if (!u2) sim_fail("MISMATCH(constructor)", "spif_url_new_from_ptr returned NULL");
     get_components(u2, &got2, "reparse");
-    if (want.has[U_PROTO] && !want.has[U_PORT] && service_port(want.proto, ns, portbuf, sizeof(portbuf))) { want.has[U_PORT] = 1; snprintf(want.port, sizeof(want.port), "%s", portbuf); }
+    if (want.has[U_PROTO] && !want.has[U_PORT]) {
+        if (!port_ok(want.proto, ns, got2.has[U_PORT] ? got2.port : NULL)) sim_fail("MISMATCH(roundtrip)", "assembled, unparsed to \"%.60s\" and parsed again: port %s is not what the service database gives for \"%.20s\"", canon, got2.has[U_PORT] ? got2.port : "(none)", want.proto);
+        want.has[U_PORT] = got2.has[U_PORT]; snprintf(want.port, sizeof(want.port), "%s", got2.has[U_PORT] ? got2.port : "");
+    }
+    (void)portbuf;
     if (!comp_eq(&got2, &want, 0, why, sizeof(why))) sim_fail("MISMATCH(roundtrip)", "assembled, unparsed to \"%.60s\" and parsed again: %s", canon, why);
     probe_hit("assembled_url_roundtrip");
     tr_printf("asm %.60s", canon);
@@ -494,8 +508,11 @@ static void exec_c14(const plan_t *p)
         if (!u) sim_fail("MISMATCH(constructor)", "the URL constructor returned NULL");
         get_components(u, &got, "parse");
         ref_split(txt, &want);
-        if (want.has[U_PROTO] && !want.has[U_PORT]) expect_port = service_port(want.proto, ns, portbuf, sizeof(portbuf));
-        if (expect_port) { want.has[U_PORT] = 1; snprintf(want.port, sizeof(want.port), "%s", portbuf); }
+        if (want.has[U_PROTO] && !want.has[U_PORT]) {
+            if (wellformed && !port_ok(want.proto, ns, got.has[U_PORT] ? got.port : NULL)) sim_fail("MISMATCH(components)", "parsing \"%.80s\": port %s is not what the service database gives for \"%.20s\"", txt, got.has[U_PORT] ? got.port : "(none)", want.proto);
+            want.has[U_PORT] = got.has[U_PORT]; snprintf(want.port, sizeof(want.port), "%s", got.has[U_PORT] ? got.port : "");
+        }
+        (void)expect_port; (void)portbuf;
         if (!comp_eq(&got, &want, 0, why, sizeof(why))) {
             if (wellformed) sim_fail("MISMATCH(components)", "parsing \"%.80s\": %s", txt, why);
             /* arbitrary byte strings: only safety and determinism are demanded */
@@ -515,7 +532,7 @@ static void exec_c14(const plan_t *p)
             if (!spif_url_unparse(u)) sim_fail("MISMATCH(unparse)", "unparse returned FALSE");
             canon = blockdup((const unsigned char *)SPIF_STR_STR(SPIF_STR(u)), (size_t)spif_str_get_len(SPIF_STR(u)));
             {
-                char exp[800]; size_t n = 0;
+                char exp[9000]; size_t n = 0;
                 if (got.has[U_PROTO]) n += (size_t)snprintf(exp + n, sizeof(exp) - n, "%s:", got.proto);
                 if (got.has[U_HOST]) n += (size_t)snprintf(exp + n, sizeof(exp) - n, "//");
                 if (got.has[U_USER]) { n += (size_t)snprintf(exp + n, sizeof(exp) - n, "%s", got.user); if (got.has[U_PASSWD]) n += (size_t)snprintf(exp + n, sizeof(exp) - n, ":%s", got.passwd); n += (size_t)snprintf(exp + n, sizeof(exp) - n, "@"); }
@@ -560,7 +577,7 @@ static void gen_c14(plan_t *p, rng_t *r)
     plan_knob(p, "alloc.fill", rng_range(r, 0, 4));
     plan_knob(p, "alloc.realloc", rng_range(r, 0, 2));
     for (int i = 0; i < nops; i++) {
-        char txt[700], w[80];
+        char txt[4000], w[1300];
         size_t n = 0;
         int wf = rng_chance(r, 4, 5);
         op_t *o;
@@ -590,7 +607,8 @@ static void gen_c14(plan_t *p, rng_t *r)
             if (hasproto) n += (size_t)snprintf(txt + n, sizeof(txt) - n, "%s:", protos[rng_below(r, rng_chance(r, 1, 5) ? 20 : 14)]);
             if (hashost && (hasproto ? rng_chance(r, 5, 6) : rng_chance(r, 1, 2))) n += (size_t)snprintf(txt + n, sizeof(txt) - n, "//");
             if (hasuser) { int ul = LONGW(1, 6); gen_word(r, w, ul, ul, rng_chance(r, 1, 4) ? "abcXYZ019" : "abcxyz019"); n += (size_t)snprintf(txt + n, sizeof(txt) - n, "%s", w); if (haspw) { gen_word(r, w, 1, 6, "abc019::"); n += (size_t)snprintf(txt + n, sizeof(txt) - n, ":%s", w); } n += (size_t)snprintf(txt + n, sizeof(txt) - n, "@"); }
-            if (hashost) { int hl = LONGW(1, 12); gen_word(r, w, hl, hl, HOSTAL); n += (size_t)snprintf(txt + n, sizeof(txt) - n, "%s", w);
+            if (hashost) { static const int big[] = { 100, 254, 255, 256, 257, 600, 1023, 1024, 1100 };
+                           int hl = rng_chance(r, 1, 25) ? big[rng_below(r, 9)] : LONGW(1, 12); gen_word(r, w, hl, hl, HOSTAL);      /* now and then a host as long as any scratch buffer one might copy it into */ n += (size_t)snprintf(txt + n, sizeof(txt) - n, "%s", w);
                            if (hasport) { n += (size_t)snprintf(txt + n, sizeof(txt) - n, ":"); n += (size_t)snprintf(txt + n, sizeof(txt) - n, portfmt[rng_below(r, 7)], rng_chance(r, 1, 10) ? 1234567 : rng_below(r, 65536)); } }
             if (haspath) {
                 if (rng_chance(r, 1, 15)) { int pl = rng_range(r, 200, 254); txt[n++] = '/'; txt[n++] = 'p'; for (int q = 1; q < pl; q++) txt[n++] = "abc/._-"[rng_below(r, 7)]; txt[n] = 0; }       /* a long path */
@@ -601,7 +619,7 @@ static void gen_c14(plan_t *p, rng_t *r)
         } else {
             size_t pre = 0;
             if (rng_chance(r, 1, 2)) pre = (size_t)snprintf(txt, sizeof(txt), "%s:", protos[rng_below(r, 14)]);       /* every lookup outcome crossed with arbitrary remainders: "http:", "tcp://", "odd:?q" */
-            n = pre + (size_t)rng_range(r, 0, 60);
+            n = pre + (size_t)(rng_chance(r, 1, 20) ? rng_range(r, 250, 1500) : rng_range(r, 0, 60));
             for (size_t j = pre; j < n; j++) txt[j] = rng_chance(r, 1, 3) ? ":/@?."[rng_below(r, 5)] : rng_chance(r, 1, 8) ? (char)(1 + rng_below(r, 255)) : (char)('a' + rng_below(r, 6));
             txt[n] = 0;
         }
@@ -630,14 +648,30 @@ void *shim_realloc(void *p, size_t n, unsigned long *line);
 char *shim_strdup(const char *s, unsigned long *line);
 int shim_debug_compiled(void);
 static int viamacro;
+/* a few hundred further tracked blocks, so that the table passes 255 and 256 records while single blocks come and go (an index or a
+   counter that is one byte wide would wrap there) */
+#define NBULK 320
+static void *bulk[NBULK]; static size_t bulk_size[NBULK]; static int nbulk;
+static void check_bulk(const char *when)
+{
+    const spifmem_memrec_t *rec = simacc_malloc_rec();
+    for (int i = 0; i < nbulk; i++) {
+        int hits = 0;
+        for (size_t k = 0; k < rec->cnt; k++) if (rec->ptrs[k].ptr == bulk[i]) { hits++; if (rec->ptrs[k].size != bulk_size[i]) sim_fail("MISMATCH(table-size)", "%s: record %zu of a large table says %zu bytes, requested %zu", when, k, (size_t)rec->ptrs[k].size, bulk_size[i]); }
+        if (hits != 1) sim_fail("MISMATCH(table-records)", "%s: block %d of a large table has %d records", when, i, hits);
+    }
+}
 
 static void check_table(const char *when)
 {
     const spifmem_memrec_t *rec = simacc_malloc_rec();
     size_t want = 0;
     for (int i = 0; i < NPTR; i++) if (sh[i].p && sh[i].tracked) want++;
+    want += (size_t)nbulk;
     if (rec->cnt != want) sim_fail("MISMATCH(table-count)", "%s: tracker holds %zu records, %zu tracked blocks are live", when, (size_t)rec->cnt, want);
-    if (rec->cnt && !sa_readable(rec->ptrs, rec->cnt * sizeof(spifmem_ptr_t))) sim_fail("INVARIANT(table-block)", "%s: table is not a live block of cnt records", when);
+    /* where the table lives is the tracker's business (a static array for the first few records would do): only a table that claims to be
+       on the heap has to be a live block of the right size */
+    if (rec->cnt && sa_in_arena(rec->ptrs) && !sa_readable(rec->ptrs, rec->cnt * sizeof(spifmem_ptr_t))) sim_fail("INVARIANT(table-block)", "%s: table is not a live block of cnt records", when);
     for (int i = 0; i < NPTR; i++) {
         int hits = 0;
         if (!sh[i].p || !sh[i].tracked) continue;
@@ -665,7 +699,7 @@ static void must_be_freed(const void *old, uint32_t serial, const char *what)
 }
 static void exec_c15_api(const plan_t *p)
 {
-    memset(sh, 0, sizeof(sh));
+    memset(sh, 0, sizeof(sh)); memset(bulk, 0, sizeof(bulk)); nbulk = 0;
     viamacro = (int)plan_get(p, "viamacro", 0);
     if (viamacro) probe_hit("via_macros");
     libast_debug_level = (unsigned int)plan_get(p, "level0", 5);
@@ -679,6 +713,21 @@ static void exec_c15_api(const plan_t *p)
         R.cur_op = o; R.cur_op_index = i; R.op_steps = 0;
         if (s < 0 || s >= NPTR) sim_skip("bad-slot");
         if (!strcmp(k, "level")) { libast_debug_level = 5; probe_hit("tracking_switched_on"); }
+        else if (!strcmp(k, "bulk")) {
+            int n = (int)o->a[1];
+            if (nbulk || !tracking || viamacro || n < 1 || n > NBULK) continue;
+            for (int q = 0; q < n; q++) { bulk_size[q] = (size_t)(1 + q % 7); bulk[q] = spifmem_malloc("bulk.c", 100 + (unsigned long)q, bulk_size[q]); if (!bulk[q]) sim_fail("MISMATCH(alloc-null)", "malloc returned NULL"); }
+            nbulk = n;
+            check_bulk(k);
+            probe_hit("table_beyond_255_records");
+        } else if (!strcmp(k, "bulkfree")) {
+            if (!nbulk) continue;
+            check_bulk(k);
+            /* from the middle outwards, so that removals hit high and low positions */
+            for (int q = 0; q < nbulk; q++) { int z = (q % 2) ? nbulk / 2 + q / 2 : nbulk / 2 - 1 - q / 2; if (z < 0 || z >= nbulk || !bulk[z]) continue; spifmem_free("v", "bulk.c", 999, bulk[z]); bulk[z] = NULL; }
+            for (int q = 0; q < nbulk; q++) if (bulk[q]) { spifmem_free("v", "bulk.c", 999, bulk[q]); bulk[q] = NULL; }
+            nbulk = 0;
+        }
         else if (!strcmp(k, "malloc") || !strcmp(k, "calloc") || !strcmp(k, "strdup")) {
             void *q;
             uint64_t before = sa_stat_reuses;
@@ -731,6 +780,7 @@ static void exec_c15_api(const plan_t *p)
         if (libast_debug_level >= 5) check_table(k);
     }
     R.cur_op = NULL;
+    if (nbulk) { unsigned int lv = libast_debug_level; libast_debug_level = 5; for (int q = 0; q < nbulk; q++) if (bulk[q]) { spifmem_free("v", "end.c", 2, bulk[q]); bulk[q] = NULL; } nbulk = 0; libast_debug_level = lv; }
     for (int i = 0; i < NPTR; i++) if (sh[i].p) { if (viamacro) shim_free(sh[i].p); else spifmem_free("v", "end.c", 1, sh[i].p); sh[i].p = NULL; }
     if (libast_debug_level >= 5) check_table("end");
     if (simacc_malloc_rec()->cnt) sim_fail("MISMATCH(table-count)", "tracker still holds %zu records after every block was freed", (size_t)simacc_malloc_rec()->cnt);
@@ -774,10 +824,13 @@ static void gen_c15(plan_t *p, rng_t *r)
     plan_knob(p, "alloc.fill", rng_range(r, 0, 4));
     plan_knob(p, "alloc.realloc", rng_range(r, 0, 2));
     plan_knob(p, "alloc.reuse", rng_chance(r, 2, 3) ? REUSE_LIFO : rng_range(r, 0, 2));
+    int bulk_at = rng_chance(r, 1, 40) ? (int)rng_below(r, (uint32_t)nops) : -1, bulk_free_at = bulk_at >= 0 && rng_chance(r, 2, 3) ? bulk_at + 1 + (int)rng_below(r, (uint32_t)(nops - bulk_at)) : -1;
     for (int i = 0; i < nops; i++) {
         int k = (int)rng_below(r, 100), s = (int)rng_below(r, NPTR);
         long size = rng_chance(r, 1, 8) ? 0 : rng_chance(r, 1, 2) ? (long)rng_below(r, 32) : (long)rng_below(r, 600);
         if (untracked_prefix && i == untracked_prefix) plan_op(p, 0, "level", 1, 0L);
+        if (i == bulk_at) { static const int bn[] = { 240, 243, 244, 250, 254, 255, 256, 300 }; plan_op(p, 0, "bulk", 2, 0L, (long)bn[rng_below(r, 8)]); }      /* the table passes 255 records */
+        if (i == bulk_free_at) plan_op(p, 0, "bulkfree", 1, 0L);
         if (k < 30) plan_op(p, 0, "malloc", 4, (long)s, size, (long)rng_below(r, 10), C15_LINE(r));
         else if (k < 38) plan_op(p, 0, "calloc", 4, (long)s, size % 60, (long)rng_below(r, 10), C15_LINE(r));
         else if (k < 46) { op_t *o = plan_op(p, 0, "strdup", 4, (long)s, 0L, (long)rng_below(r, 10), C15_LINE(r)); char w[40]; gen_word(r, w, 0, 30, "abcdef "); op_str(o, w, strlen(w)); }
